@@ -140,6 +140,9 @@ pub fn pump_stepwise(r: &mut Runner) -> Guarded<bool> {
         // Anything due soon?
         let now_ms = seams::now_ns() as i128 / 1_000_000;
         let mut next: Option<i128> = None;
+        // Earliest due time among the tasks that have not run yet since
+        // the observable state last changed.
+        let mut next_fresh: Option<i128> = None;
         let mut waiting: BTreeSet<String> = BTreeSet::new();
         for inst in &r.world.insts {
             if !inst.is_up() {
@@ -157,6 +160,12 @@ pub fn pump_stepwise(r: &mut Runner) -> Guarded<bool> {
                         Some(n) => std::cmp::min(n, due),
                         None => due
                     });
+                    if !ran_since_change.contains(&name) {
+                        next_fresh = Some(match next_fresh {
+                            Some(n) => std::cmp::min(n, due),
+                            None => due
+                        });
+                    }
                 }
             }
         }
@@ -185,6 +194,18 @@ pub fn pump_stepwise(r: &mut Runner) -> Guarded<bool> {
         if rounds >= 40 {
             return Guarded::Ok(false)
         }
+        // A task that is put back every second because it waits for
+        // something another (later) task has to do first would otherwise
+        // keep the clock from ever reaching that other task: once nothing
+        // has changed for a few rounds, move on to the earliest task that
+        // has not had its turn.
+        let due = match next_fresh {
+            Some(fresh) if stable >= 3 && fresh > due => {
+                r.stat("pump.skipped_to_fresh_task");
+                fresh
+            }
+            _ => due
+        };
         if due > now_ms {
             let secs = ((due - now_ms + 999) / 1000) as i64;
             r.world.advance(secs);
